@@ -177,6 +177,25 @@ def run(tier, argv):
     if missing:
         raise MachineryError(f"distributions without a table row: {missing}")
     chk.sample({"table_row": {"dist": table[5]["dist"], "params": table[5]["params"], "value": table[5]["value"], "lp_ring": table[5]["lp"]}})
+    # a sampler under two nested vectorisations (inner one maps the location, outer one is a plain axis of size m): shape (m, n),
+    # entry [i, j] drawn with lane j's parameters
+    key2 = jax.random.key(chk.seed + 21)
+    mus = jnp.asarray([0.0, 100.0, 200.0, 300.0])
+    for dname, dist in (("normal", D.normal), ("user-wrapped normal", tfp_distribution(tfd.Normal, name="user_normal2"))):
+        for m in (3, 4):
+            ck = f"sampler-nested-vectorisation|{dname}|m={m}"
+            chk.case(ck)
+            try:
+                f = lambda: modular_vmap(lambda: modular_vmap(lambda mu: dist.sample(mu, 1e-3), in_axes=0)(mus), axis_size=m)()
+                out = np.asarray(seed(f)(key2))
+                if out.shape != (m, 4):
+                    chk.violation(ck, f"shape {out.shape}, the outer axis of size {m} must come first: ({m}, 4)", {})
+                elif np.max(np.abs(out - np.asarray(mus)[None, :])) > 1.0:
+                    chk.violation(ck, "entry [i, j] is not a draw with lane j's location (the lanes are transposed)", {})
+                elif len(np.unique(out)) != out.size:
+                    chk.violation(ck, "repeated draws across lanes", {})
+            except Exception as ex_:
+                chk.violation(ck, f"raised {type(ex_).__name__}: {str(ex_).splitlines()[0][:140] if str(ex_) else ''}", {})
     # user-wrapped distributions behave the same
     for name, ctor, args, val in (("normal", tfd.Normal, (1.0, 2.0), 3.0), ("exponential", tfd.Exponential, (2.0,), 0.5)):
         ck = f"user-wrapped|{name}"
